@@ -146,7 +146,7 @@ class Check:
             print(f"note: listed finding no longer observed (stale entry, not an error): {k}")
         replay_paths = []
         if new:
-            rdir = os.path.join(VERIF, "evidence", "replay")
+            rdir = os.path.join(self.evidence_dir(), "replay")
             os.makedirs(rdir, exist_ok=True)
             for i, f in enumerate(new):
                 p = os.path.join(rdir, f"{self.pid}-{i}.json")
@@ -164,8 +164,21 @@ class Check:
         )
         return 1 if new else 0
 
+    def evidence_dir(self) -> str:
+        """/verif/evidence for runs against /repo itself; runs against a scratch root
+        (--root: self-tests, seeded changes, refactor probes) must never overwrite the
+        evidence of the real tree, so they write to a scratch directory instead."""
+        d = os.environ.get("VERIF_EVIDENCE_DIR")
+        if d:
+            return d
+        if os.path.realpath(self.repo.root) == os.path.realpath(os.environ.get("VERIF_REPO", "/repo")):
+            return os.path.join(VERIF, "evidence")
+        import tempfile
+
+        return os.path.join(tempfile.gettempdir(), "verif-evidence-scratch")
+
     def write_evidence(self, n_viol: int, known_seen: List[dict], stale: List[str]) -> None:
-        os.makedirs(os.path.join(VERIF, "evidence"), exist_ok=True)
+        os.makedirs(self.evidence_dir(), exist_ok=True)
         expl = (
             "Static analysis of the current source tree (no SQL is lexed, parsed, linted or fixed). "
             "Rules applied: "
@@ -206,7 +219,7 @@ class Check:
             "wall_s": round(time.time() - self.t0, 3),
             "violations": n_viol,
         }
-        with open(os.path.join(VERIF, "evidence", f"{self.pid}.json"), "w") as fh:
+        with open(os.path.join(self.evidence_dir(), f"{self.pid}.json"), "w") as fh:
             json.dump(ev, fh, indent=1, default=str)
 
 
